@@ -22,9 +22,69 @@ type vPipe struct {
 	buf    []byte
 	closed bool
 	note   chan struct{} // capacity 1: a wake-up before the reader waits is not lost (one reader per direction)
+	link   *vLink
+	writes int
 }
 
-func newVPipe() *vPipe { return &vPipe{note: make(chan struct{}, 1)} }
+// vLink: what both ends of a connection share. A connection can be scripted to be lost: at the
+// cutWrite-th Write call on the cutPipe-th pipe (pipes numbered in the order the streams were opened,
+// two per stream: opener->acceptor first), after half of that call's bytes if cutMid. From then on every
+// Write on every stream of the connection fails, and every Read once what had arrived is consumed.
+type vLink struct {
+	mu       sync.Mutex
+	pipes    []*vPipe
+	lost     bool
+	cutPipe  int
+	cutWrite int
+	cutMid   bool
+	// dropInFlight: bytes written before the loss but not yet read are gone as well; otherwise the peer
+	// still reads them and then gets the error
+	dropInFlight bool
+	graceful     bool // readers see a clean end of stream instead of an error (close with application code 0)
+}
+
+var errVLost = errors.New("connection lost")
+
+func (l *vLink) newPipe() *vPipe {
+	p := &vPipe{note: make(chan struct{}, 1), link: l}
+	l.mu.Lock()
+	l.pipes = append(l.pipes, p)
+	l.mu.Unlock()
+	return p
+}
+
+func (l *vLink) isLost() bool {
+	l.mu.Lock()
+	defer l.mu.Unlock()
+	return l.lost
+}
+
+func (l *vLink) lose() {
+	l.mu.Lock()
+	l.lost = true
+	ps := append([]*vPipe{}, l.pipes...)
+	drop := l.dropInFlight
+	l.mu.Unlock()
+	for _, p := range ps {
+		if drop {
+			p.mu.Lock()
+			p.buf = nil
+			p.mu.Unlock()
+		}
+		p.wake()
+	}
+}
+
+func (l *vLink) index(p *vPipe) int {
+	l.mu.Lock()
+	defer l.mu.Unlock()
+	for i, q := range l.pipes {
+		if q == p {
+			return i
+		}
+	}
+	return -1
+}
 
 func (p *vPipe) wake() {
 	select {
@@ -49,6 +109,12 @@ func (s *vPipeStream) Read(b []byte) (int, error) {
 		}
 		closed := s.r.closed
 		s.r.mu.Unlock()
+		if s.r.link.isLost() {
+			if s.r.link.graceful {
+				return 0, io.EOF // the peer closed the connection without an error code
+			}
+			return 0, errVLost
+		}
 		if closed {
 			return 0, io.EOF
 		}
@@ -57,11 +123,32 @@ func (s *vPipeStream) Read(b []byte) (int, error) {
 }
 
 func (s *vPipeStream) Write(b []byte) (int, error) {
+	l := s.w.link
+	if l.isLost() {
+		return 0, errVLost
+	}
 	s.w.mu.Lock()
 	if s.w.closed {
 		s.w.mu.Unlock()
 		return 0, io.ErrClosedPipe
 	}
+	n := s.w.writes
+	s.w.writes++
+	s.w.mu.Unlock()
+	if l.cutWrite >= 0 && n == l.cutWrite && l.index(s.w) == l.cutPipe {
+		part := 0
+		if l.cutMid {
+			part = len(b) / 2
+		}
+		if part > 0 {
+			s.w.mu.Lock()
+			s.w.buf = append(s.w.buf, b[:part]...)
+			s.w.mu.Unlock()
+		}
+		l.lose()
+		return part, errVLost
+	}
+	s.w.mu.Lock()
 	s.w.buf = append(s.w.buf, b...)
 	s.w.mu.Unlock()
 	s.w.wake()
@@ -82,17 +169,22 @@ type vPipeConn struct {
 	incoming chan *vPipeStream
 	peer     *vPipeConn
 	opened   uint64
+	link     *vLink
 }
 
 func vNewPipeConns() (*vPipeConn, *vPipeConn) {
-	a := &vPipeConn{incoming: make(chan *vPipeStream, 8)}
-	b := &vPipeConn{incoming: make(chan *vPipeStream, 8)}
+	l := &vLink{cutWrite: -1}
+	a := &vPipeConn{incoming: make(chan *vPipeStream, 8), link: l}
+	b := &vPipeConn{incoming: make(chan *vPipeStream, 8), link: l}
 	a.peer, b.peer = b, a
 	return a, b
 }
 
 func (c *vPipeConn) OpenStream(ctx context.Context) (Stream, error) {
-	out, in := newVPipe(), newVPipe()
+	if c.link.isLost() {
+		return nil, errVLost
+	}
+	out, in := c.link.newPipe(), c.link.newPipe()
 	id := c.opened
 	c.opened++
 	c.peer.incoming <- &vPipeStream{r: out, w: in, id: id}
@@ -233,4 +325,161 @@ func vC04EndToEnd(sizes []int, tornLastChunk bool) {
 	vAssert(rerr == nil && len(got) == size, "the resumed file has its length")
 	vAssert(vBytesEq(got, src), "after the resumed transfer the file equals the source")
 	vCover("C04 end to end: resumed and identical")
+}
+
+// H_C03_endtoend: tree shapes at the edges - empty manifest, a directory only, a zero-length file only,
+// one 1-byte file on four streams (fewer chunks than streams), two files on two streams - between the
+// real sender and the real receiver, resume on or off: both come back and report success, the tree is
+// the announced one.
+func H_C03_endtoend() {
+	dir := vTempDir()
+	out := dir + "/out"
+	var m manifest.Manifest
+	m.Root = "src"
+	streams := 1
+	shape := vChoice("shape", 5)
+	srcA, srcB := vBytes("srcA", 5), vBytes("srcB", 4)
+	vTempFile("src/keep", []byte{1}) // the source directory exists in every shape
+	switch shape {
+	case 0:
+		vTag("empty-manifest")
+	case 1:
+		vTag("directory-only")
+		m.Items = []manifest.FileItem{{RelPath: "d", IsDir: true}}
+		m.FolderCount = 1
+	case 2:
+		vTag("zero-length-file")
+		vTempFile("src/e", nil)
+		m.Items = []manifest.FileItem{{RelPath: "e", Size: 0, ID: "ide"}}
+		m.FileCount = 1
+	case 3:
+		vTag("fewer-chunks-than-streams")
+		vTempFile("src/a", srcA[:1])
+		m.Items = []manifest.FileItem{{RelPath: "a", Size: 1, ID: "ida"}}
+		m.FileCount, m.TotalBytes = 1, 1
+		streams = 4
+	default:
+		vTag("two-files-two-streams")
+		vTempFile("src/a", srcA)
+		vTempFile("src/b", srcB)
+		m.Items = []manifest.FileItem{{RelPath: "a", Size: 5, ID: "ida"}, {RelPath: "b", Size: 4, ID: "idb"}}
+		m.FileCount, m.TotalBytes = 2, 9
+		streams = 2
+	}
+	resume := vBool("resume")
+	a, b := vNewPipeConns()
+	var sendErr error
+	done := make(chan struct{})
+	go func() {
+		sendErr = SendManifestMultiStream(vContext("sctx", false), a, dir+"/src", m, Options{ChunkSize: 4, ParallelFiles: streams, Resume: resume})
+		close(done)
+	}()
+	_, recvErr := RecvManifestMultiStream(vContext("rctx", false), b, out, Options{NoRootDir: true, Resume: resume})
+	<-done
+	vAssert(recvErr == nil, "between healthy peers the receiver reports success")
+	vAssert(sendErr == nil, "between healthy peers the sender reports success")
+	switch shape {
+	case 1:
+		st, err := os.Stat(out + "/d")
+		vAssert(err == nil && st.IsDir(), "the directory of the manifest exists")
+	case 2:
+		got, err := os.ReadFile(out + "/e")
+		vAssert(err == nil && len(got) == 0, "the zero-length file exists and is empty")
+	case 3:
+		got, err := os.ReadFile(out + "/a")
+		vAssert(err == nil && vBytesEq(got, srcA[:1]), "the one-byte file arrived")
+	case 4:
+		ga, ea := os.ReadFile(out + "/a")
+		gb, eb := os.ReadFile(out + "/b")
+		vAssert(ea == nil && vBytesEq(ga, srcA), "file a arrived byte for byte")
+		vAssert(eb == nil && vBytesEq(gb, srcB), "file b arrived byte for byte")
+	}
+	vCover("C03 end to end: completed")
+}
+
+// H_C02_endtoend_lost: the connection between the real sender and the real receiver is lost at the n-th
+// write of one of the streams' directions (control sender->receiver, control receiver->sender, data
+// sender->receiver), between two writes or in the middle of one, with or without the bytes in flight.
+// Each side must come back; a side that reports success implies the file is complete and identical,
+// and the sender reports success only if the receiver had confirmed (then the file is identical too).
+func H_C02_endtoend_lost() {
+	size := 5
+	src := vBytes("src", size)
+	dir := vTempDir()
+	out := dir + "/out"
+	vTempFile("src/f", src)
+	item := manifest.FileItem{RelPath: "f", Size: int64(size), ID: "idf"}
+	m := manifest.Manifest{Root: "src", Items: []manifest.FileItem{item}, TotalBytes: int64(size), FileCount: 1}
+	a, b := vNewPipeConns()
+	l := a.link
+	l.cutPipe = []int{0, 1, 2}[vChoice("cutStream", 3)] // 0: control s->r, 1: control r->s, 2: data s->r
+	l.cutWrite = vChoice("cutAtWrite", 24)
+	l.cutMid = vBool("cutInsideWrite")
+	l.dropInFlight = vBool("dropInFlight")
+	l.graceful = vBool("gracefulClose")
+	resume := vBool("resume")
+	var sendErr error
+	done := make(chan struct{})
+	go func() {
+		sendErr = SendManifestMultiStream(vContext("sctx", false), a, dir+"/src", m, Options{ChunkSize: 4, ParallelFiles: 1, Resume: resume})
+		close(done)
+	}()
+	_, recvErr := RecvManifestMultiStream(vContext("rctx", false), b, out, Options{NoRootDir: true, Resume: resume})
+	<-done
+	if recvErr == nil || sendErr == nil {
+		got, rerr := os.ReadFile(out + "/f")
+		vAssert(rerr == nil && len(got) == size && vBytesEq(got, src), "a side reports success only if the file is complete and identical")
+	}
+	if l.isLost() {
+		vCover("C02 end to end: connection lost")
+	} else {
+		vAssert(recvErr == nil && sendErr == nil, "without a fault both sides succeed")
+		vCover("C02 end to end: cut point beyond the transfer")
+	}
+}
+
+// H_C02_endtoend_cancel: the caller of the real sender or of the real receiver cancels its context at
+// some moment of a transfer over a working connection. Both sides must come back; a side that reports
+// success implies the file is complete and identical.
+func H_C02_endtoend_cancel() {
+	size := 5
+	src := vBytes("src", size)
+	dir := vTempDir()
+	out := dir + "/out"
+	vTempFile("src/f", src)
+	item := manifest.FileItem{RelPath: "f", Size: int64(size), ID: "idf"}
+	m := manifest.Manifest{Root: "src", Items: []manifest.FileItem{item}, TotalBytes: int64(size), FileCount: 1}
+	a, b := vNewPipeConns()
+	senderCancels := vBool("senderSideCancels")
+	if senderCancels {
+		vTag("sender-cancels")
+	} else {
+		vTag("receiver-cancels")
+	}
+	sctx := vContext("sctx", senderCancels)
+	rctx := vContext("rctx", !senderCancels)
+	var sendErr error
+	done := make(chan struct{})
+	// an endpoint that has returned closes its connection, as the application (or the end of the process) does
+	go func() {
+		sendErr = SendManifestMultiStream(sctx, a, dir+"/src", m, Options{ChunkSize: 4, ParallelFiles: 1})
+		if sendErr != nil {
+			a.link.lose()
+		}
+		close(done)
+	}()
+	_, recvErr := RecvManifestMultiStream(rctx, b, out, Options{NoRootDir: true})
+	if recvErr != nil {
+		b.link.lose()
+	}
+	<-done
+	if recvErr == nil || sendErr == nil {
+		got, rerr := os.ReadFile(out + "/f")
+		vAssert(rerr == nil && len(got) == size && vBytesEq(got, src), "a side reports success only if the file is complete and identical")
+	}
+	if recvErr == nil && sendErr == nil {
+		vCover("C02 end to end: not cancelled in time, both succeed")
+	} else {
+		vCover("C02 end to end: cancelled")
+	}
 }
